@@ -53,6 +53,31 @@ def attempts(r):
     A.append(({"main": "x := RUN f WITH 1 END ;\ny := 1"}, "main", "undefined"))
     A.append(({"main": "PROGRAM f DO\nLOOP x0 DO\nx0 := RUN f WITH END\nEND\nEND\nx := RUN f WITH END"}, "main", "self-inside-loop"))
     A.append(({"main": "PROGRAM f IN a DO\nx0 := RUN f WITH RUN f WITH a END END\nEND\nx := 1"}, "main", "self-nested-arg-uncalled"))
+    # redefinitions of identical shape (same arity, same frame size) whose new body reaches the old name again
+    A.append(({"main": "PROGRAM f DO\nx0 := 7\nEND\nPROGRAM f DO\nx0 := RUN f WITH END\nEND\nx := RUN f WITH END"}, "main", "same-shape-redefinition-self"))
+    A.append(({"main": "PROGRAM a DO\nx0 := 5\nEND\nPROGRAM b DO\nx0 := RUN a WITH END\nEND\nPROGRAM a DO\nx0 := RUN b WITH END\nEND\nx := RUN a WITH END"}, "main",
+              "same-shape-redefinition-mutual"))
+    A.append(({"main": 'include "lib"\nPROGRAM a DO\nx0 := RUN b WITH END\nEND\nx := RUN a WITH END',
+               "lib": "PROGRAM a DO\nx0 := 6\nEND\nPROGRAM b DO\nx0 := RUN a WITH END\nEND"}, "main", "same-shape-redefinition-include"))
+    A.append(({"main": 'include "lib"\ninclude "lib"\nx := RUN f WITH 2 END', "lib": "PROGRAM f IN a DO\nx0 := a + 1\nEND"}, "main", "double-include"))
+    for _ in range(10):
+        # random: k definitions of ONE name with equal arity; bodies padded to the same variables; each may call the name
+        k = r.randint(2, 4)
+        ar = r.randint(0, 2)
+        params = ["p%d" % i for i in range(ar)]
+        lines = []
+        for i in range(k):
+            lines.append("PROGRAM f" + ((" IN " + ", ".join(params)) if params else "") + " DO")
+            args = ", ".join(r.choice(params + ["x0", "1"]) for _ in range(ar))
+            body = ["t := x0 + %d" % i]
+            if i > 0 and r.random() < 0.8:
+                body.append("x0 := RUN f WITH %s END" % args)
+            else:
+                body.append("x0 := t + 1")
+            lines.append(" ;\n".join(body))
+            lines.append("END")
+        lines.append("x := RUN f WITH %s END" % ", ".join(str(r.randint(0, 3)) for _ in range(ar)))
+        A.append(({"main": "\n".join(lines)}, "main", "random-redefinition"))
     # random chains: k programs, each calling a random other (earlier = legal, same/later = illegal)
     for _ in range(12):
         k = r.randint(2, 5)
